@@ -15,6 +15,7 @@ pub struct ZobristTable {
 
 impl ZobristTable {
     pub fn new() -> Self {
+        #[cfg_attr(flounder_verif, allow(unused_mut))]
         let mut rng = rand::thread_rng();
         #[cfg(flounder_verif)]
         let mut rng = verif::VerifRng::wrap(rng);
